@@ -108,7 +108,7 @@ def _label_used(items, name):
 
 
 def _const_names(v):
-    if isinstance(v, ir.CRef):
+    if isinstance(v, (ir.CRef, ir.OffC)):
         return {v.name}
     out = set()
     for attr in ('a', 'b', 'v', 'base'):
